@@ -337,6 +337,25 @@ def _apply(c, op, dom, impl, kind):
         _pre()
         new = type(c)(arg)
         return listing(new, mapping)
+    if name == "fsrt":
+        # fs family, Bucket: toBytes() of the container loaded into a NEW
+        # bucket with fromBytes(), which then takes more entries; the result
+        # is the new bucket's listing (the container itself is only read)
+        data = c.toBytes()
+        new = type(c)()
+        r = new.fromBytes(data)
+        if r is not new:
+            raise AssertionError("fromBytes() did not return its bucket")
+        for k, v in op[1]:
+            new[K(dom, k)] = V(dom, v)
+        return list(new.items())
+    if name == "fsload":
+        # ... and fromBytes() on the container itself: its contents are
+        # replaced by the given (sorted) entries
+        pairs = sorted((K(dom, k), V(dom, v)) for k, v in op[1])
+        c.fromBytes(b"".join(k for k, _ in pairs) +
+                    b"".join(v for _, v in pairs))
+        return None
     if name == "byValue":
         # (mappings only; the reference model has no opinion on byValue --
         # the replicas of a scenario are compared with each other)
@@ -542,6 +561,16 @@ class Model(object):
                     dd[k] = v
                 return [(dom.key(k), dom.val(dd[k])) for k in sorted(dd)]
             return [dom.key(k) for k in sorted(set(op[1]))]
+        if name == "fsrt":
+            dd = dict(d)
+            for k, v in op[1]:
+                dd[k] = v
+            return [(dom.key(k), dom.val(dd[k])) for k in sorted(dd)]
+        if name == "fsload":
+            d.clear()
+            for k, v in op[1]:
+                d[k] = v
+            return None
         if name == "byValue":
             # no opinion on the answer (nor on whether the minimum can be
             # compared with every value); the contents stay what they are
